@@ -41,7 +41,7 @@ def withoutCompatibles (so to : List String) : List String :=
 
 /-- `_find_compatible(cts, ct)`: the first `c` of `cts` with `c.is_compatible_with(ct)`;
     `none` = RuntimeError.  (The iteration order of the Python set is unspecified; the table is
-    proved to admit at most one candidate, `C16_compat_functional`.) -/
+    proved to have at most one candidate, `C16_compat_functional`.) -/
 def findCompatible (cts : List String) (ct : String) : Option String :=
   cts.find? fun c => compatible c ct
 
